@@ -331,6 +331,36 @@ func ReferenceCases() []*Case {
 			}
 		}
 	}
+	// two imported packages whose default short name is the same (acme.common.v1 / beta.common.v1):
+	// one is used under its default name, the other under an alias, in both import orders
+	for _, kind := range kinds {
+		for _, aliasFirst := range []bool{false, true} {
+			for _, which := range []string{"default-name-only", "alias-only", "both"} {
+				af := file("acme/common/v1", "z")
+				at := mk(kind)
+				af.Add(at)
+				bf := file("beta/common/v1", "y")
+				bt := mk(kind)
+				bf.Add(bt)
+				user := file("foo/v1", "a")
+				plain, aliased := Import{Pkg: "acme.common.v1"}, Import{Pkg: "beta.common.v1", Alias: "bc"}
+				if aliasFirst {
+					user.Imports = []Import{aliased, plain}
+				} else {
+					user.Imports = []Import{plain, aliased}
+				}
+				var fields []*Field
+				if which != "alias-only" {
+					fields = append(fields, fld("ref", RefTo(at, "common")))
+				}
+				if which != "default-name-only" {
+					fields = append(fields, fld("second", RefTo(bt, "bc")))
+				}
+				user.Add(obj("User", fields...))
+				out = append(out, &Case{ID: fmt.Sprintf("ref:%s:same-short-name:%v:%s", kind, aliasFirst, which), Family: "references", Coord: fmt.Sprintf("references|kind=%s|form=same-short-name", kind), P: &Program{Files: []*File{user, af, bf}}})
+			}
+		}
+	}
 	return out
 }
 
@@ -380,6 +410,20 @@ func ServiceCases() []*Case {
 				}
 			}
 		}
+	}
+	// method paths that repeat, extend or resemble the base path: base + path is plain concatenation
+	for _, bp := range [][2]string{{"/stock", "/stock"}, {"/stock", "/stock/:itemId"}, {"/stock", "/stock-levels/:itemId"}, {"/stock", "/stocks"}, {"/t/v1", "/t/v1"}, {"/t/v1", "/t/v1/again"}, {"/t", "/t"}, {"/a/:tenantId", "/a/:tenantId/x"}} {
+		f := file("t/v1", "a")
+		var req []*Field
+		seen := map[string]bool{}
+		for _, seg := range strings.Split(bp[0]+bp[1], "/") {
+			if strings.HasPrefix(seg, ":") && !seen[seg] {
+				seen[seg] = true
+				req = append(req, fld(seg[1:], T(TString)))
+			}
+		}
+		f.Add(&Service{Name: "Thing", BasePath: bp[0], Methods: []*Method{{Name: "DoThing", Verb: "GET", Path: bp[1], Request: req, HasResponse: true}, {Name: "Second", Verb: "POST", Path: bp[1] + "/second", Request: req, HasResponse: true}}})
+		out = append(out, &Case{ID: fmt.Sprintf("service:overlap:%s:%s", bp[0], bp[1]), Family: "services", Coord: "services|path-overlaps-base", P: &Program{Files: []*File{f}}})
 	}
 	return out
 }
